@@ -1,0 +1,26 @@
+//go:build verif
+
+// Verification hook for property C11 (add-only, compiled only with -tags verif): re-exports the
+// hooks of api/internal/builtins, which the /verif harness cannot import. Nothing here changes behaviour.
+package krusty
+
+import (
+	"sigs.k8s.io/kustomize/api/internal/builtins"
+	"sigs.k8s.io/kustomize/api/types"
+	"sigs.k8s.io/kustomize/kyaml/resid"
+)
+
+// VerifC11LegacyLess is legacyIDSorter.Less(a, b); nil options = the built-in default order.
+func VerifC11LegacyLess(a, b resid.ResId, options *types.LegacySortOptions) bool {
+	return builtins.VerifC11LegacyLess(a, b, options)
+}
+
+// VerifC11DefaultLegacyOrder returns defaultOrderFirst, defaultOrderLast.
+func VerifC11DefaultLegacyOrder() (first, last []string) {
+	return builtins.VerifC11DefaultLegacyOrder()
+}
+
+// VerifC11NameSkipLists returns prefixFieldSpecsToSkip, suffixFieldSpecsToSkip.
+func VerifC11NameSkipLists() (prefix, suffix types.FsSlice) {
+	return builtins.VerifC11NameSkipLists()
+}
